@@ -892,6 +892,9 @@ def run(ctx):
             for r in range(rng.choice([1, 2, 3])):
                 ops += g.ops(rng.choice([3, 5, 8])) + (["adv:%d" % rng.choice([2, 3, 20, 61])] if rng.random() < 0.5 else []) + ["settle", "rotate"]
             ops += g.ops(rng.choice([0, 2, 4]))
+            total_adv = sum(int(o[4:]) for o in ops if o.startswith("adv:"))
+            if total_adv:
+                ops = ["back:%d" % (total_adv + 5)] + ops         # no record is ever dated in the future of a later restart
             note_kinds(g)
             seqs.append(("s%d" % si, ops))
         for qi, (sname, ops) in enumerate(seqs):
